@@ -22,6 +22,8 @@ C = {
  "C03": dict(text="keys() present-only and sufficient (restricted dictionary computed by the specification), fingerprints equal iff reported keys and values equal over ALL pairs of dictionaries of each graph; TLC checks KeysPresentOnly / KeysSufficient on the specification.", ref="5 C03"),
  "C08": dict(text="Wrapped expression under o equals the unwrapped real expression under the specification's overlay (Mix), for WithOptions / WithDefaultOptions / dataset options / with_options derivatives, nested; inputs deep-compared before/after every call.", ref="5 C08"),
  "C01": dict(text="All dictionaries of each graph evaluated in several orders on ONE long-lived real graph; every outcome equals a fresh copy's and the specification's; TLC checks KeysSufficient (the reason a memo keyed on keys() is transparent).", ref="5 C01"),
+ "C06": dict(text="Recording bodies / apply functions / bind functions / callbacks / effects: construction runs nothing, and during evaluate, validate, keys, explain every callable that runs belongs to a node of the specification's Visit set (the selected path).", ref="5 C06"),
+ "C12": dict(text="Failures at the public boundary (four exception types raised by user callables per the specification's Raises sets): EvaluationError, source identity, cause chain to the original exception object / the specification's missing key; histories on one long-lived graph show a failure stored nothing. One open known finding (coalesce fall-through vs keys).", ref="5 C12"),
  "C02": dict(text="Body/effect execution counters against the specification's demand analysis (Permit): one run per distinct demand, none on exact repeat / unmentioned keys / permuted key order; effects only after their body.", ref="5 C02"),
 }
 checks = []
